@@ -1203,7 +1203,7 @@ def decide(c, claim, extra=None):
     for level in levels:
         final = level == levels[-1]
         cons = c._slice(seeds, level) + extra + [neg]
-        r, m = c.solve(cons, tmo if final else max(tmo // 3, 1000), want_model=True)
+        r, m = c.solve(cons, tmo, want_model=True)
         if r == "unsat":
             return "unsat", None, level, time.time() - t0
         if final:
